@@ -19,7 +19,7 @@ META = dict(
           "any placement of @outer/@inner/@shared/@exclusive/break/continue, any loop header shape) the transcribed "
           "okl::kernelIsValid (DFS path list, reverse + startsWith filter, per-outermost-@outer count comparison, "
           "upward walks) accepts exactly the kernels that follow the structural OKL rules; refutation theorems for the "
-          "five places where the pinned source accepts a rule-breaking kernel or dies. That all seven translators apply "
+          "six places where the pinned source accepts a rule-breaking kernel or dies. That all seven translators apply "
           "this checker (and nothing stricter) is the differential tie: generated valid kernels and their single-rule "
           "mutations through serial/openmp/cuda/hip/opencl/metal/dpcpp parsers, success flags compared with the "
           "extracted model and the rule oracle.",
@@ -501,7 +501,12 @@ def sig_update_rhs_iterator(case):
     return any(len(h) == 4 and re.match(r"^B(add|sub),R,", h[3]) for h in _hdrs(case))
 
 
+def sig_depth_over_3(case):
+    return sum(1 for t in case.split() if re.match(r"^\d+:F[oib]", t)) >= 5
+
+
 SIGNATURES = {
+    "depth_over_3": sig_depth_over_3,
     "continue_in_switch": sig_continue_in_switch,
     "both_attributes": sig_both_attributes,
     "nonpositive_step": sig_nonpositive_step,
@@ -585,13 +590,18 @@ def run(run, tier, seed, replay_case=None):
         if replay_case is None:
             C.build_lib("asan")
             impl_a = C.build_driver("C22", flavour="asan")
-            k = 24 if tier == "quick" else 400
+            k = 20 if tier == "quick" else 400
             srng = random.Random(seed * 31 + 5)
             sample = [c for c in fixed_[:1]] + srng.sample(gen, min(k, len(gen)))
-            Da = C.Differential(run, PROP, impl_cmd(model, impl_a), model, C.lib_env("asan"), signatures=SIGNATURES,
+            env_a = C.lib_env("asan")
+            # LeakSanitizer off: every translator leaks a few KB of parser state per *rejected* kernel (reported in
+            # docs/notes/C22.md); that is not an accept/reject disagreement and would mask them all
+            env_a["ASAN_OPTIONS"] = env_a["ASAN_OPTIONS"].replace("detect_leaks=1", "detect_leaks=0")
+            Da = C.Differential(run, PROP, impl_cmd(model, impl_a), model, env_a, signatures=SIGNATURES,
                                 keep_first=1, jobs=min(C.NPROC, 12),
                                 model_desc="coq/C22/Model.v vs the translators (asan flavour)")
-            Ia, Ra, Sa = Da.eval(sample)
+            Ra, Sa = C.run_model(model, sample)
+            Ia = C.run_impl_parallel(impl_cmd(model, impl_a), sample, env=env_a, jobs=min(C.NPROC, 12), timeout=1800)
             Da.judge(sample, Ia, Ra, Sa, proof_failures=[])
             run.coverage["asan_sample"] = len(sample)
     finally:
